@@ -77,6 +77,10 @@ Record kctx := mkCtx {
 
 Definition kfail (draws : N) (e : err) (r : option row) : kres := mkRes r (RErr e) [] draws None.
 
+Definition with_resp (f : resp -> resp) (res : kres) : kres :=
+  mkRes (kr_row res) (f (kr_resp res)) (kr_events res) (kr_draws res) (kr_commit res).
+Definition cas_to_ok (r : resp) : resp := match r with RCas _ => ROk | x => x end.
+
 (* ------------------------------------------------------------------------------------------ *)
 (* helpers                                                                                      *)
 
@@ -206,16 +210,20 @@ Definition do_getsubdoc (path : string) (r : option row) : kres :=
   | None => kfail 0 EOther r
   | Some p =>
       match r with
-      | Some (mkRow (Some v) _ cas _ _ _ _) =>
-          match jparse_obj v with
-          | None => kfail 0 EOther r
-          | Some om =>
-              match eval_path (JObj (match om with Some m => m | None => [] end)) p with
-              | inl j => mkRes r (RVal (jprint j) cas) [] 0 None
-              | inr e => kfail 0 (perr e) r
+      | Some r0 =>
+          match r_value r0 with
+          | Some v =>
+              match jparse_obj v with
+              | None => kfail 0 EOther r
+              | Some om =>
+                  match eval_path (JObj (match om with Some m => m | None => [] end)) p with
+                  | inl j => mkRes r (RVal (jprint j) (r_cas r0)) [] 0 None
+                  | inr e => kfail 0 (perr e) r
+                  end
               end
+          | None => kfail 0 EMissing r
           end
-      | _ => kfail 0 EMissing r
+      | None => kfail 0 EMissing r
       end
   end.
 
@@ -262,24 +270,24 @@ Definition set_core (ctx : kctx) (exp : N) (preserve : bool) (v : string) (isj :
 
 Definition do_set (ctx : kctx) (exp : N) (preserve : bool) (v : string) (isj : bool) (r : option row) : kres :=
   if too_big ctx (slen v) then kfail 0 ETooBig r else
-  let '(r', e) := set_core ctx exp preserve v isj r in
-  mkRes (Some r') ROk [e] 1 (Some (k_cas ctx)).
+  let p := set_core ctx exp preserve v isj r in
+  mkRes (Some (fst p)) ROk [snd p] 1 (Some (k_cas ctx)).
 
 Definition do_incr (ctx : kctx) (amt deflt exp : N) (r : option row) : kres :=
   let cur :=
-    match r with
-    | Some (mkRow (Some v) _ _ _ _ _ _) =>
+    match match r with Some r0 => r_value r0 | None => None end with
+    | Some v =>
         match jparse_uint v with
         | Some n => if n <? two64 then inl ((n + amt) mod two64) else inr EOther
         | None => inr EOther
         end
-    | _ => inl deflt           (* MissingError: start from the default *)
+    | None => inl deflt           (* MissingError: start from the default *)
     end in
   match cur with
   | inr e => kfail 1 e r
   | inl n =>
-      let '(r', e) := set_core ctx exp false (N_to_dec n) true r in
-      mkRes (Some r') (RNum n) [e] 1 (Some (k_cas ctx))
+      let p := set_core ctx exp false (N_to_dec n) true r in
+      mkRes (Some (fst p)) (RNum n) [snd p] 1 (Some (k_cas ctx))
   end.
 
 (* ------------------------------------------------------------------------------------------ *)
@@ -289,9 +297,9 @@ Record wopts := mkWopts { w_raw : bool; w_append : bool; w_addonly : bool }.
 
 (* "SQLite didn't insert/update anything. Why not?" *)
 Definition writecas_why_not (o : wopts) (r : option row) : kres :=
-  match r with
-  | Some (mkRow (Some _) _ _ _ _ _ _) => kfail 1 (if w_addonly o then EKeyExists else ECasMismatch) r
-  | _ => kfail 1 EMissing r
+  match match r with Some r0 => r_value r0 | None => None end with
+  | Some _ => kfail 1 (if w_addonly o then EKeyExists else ECasMismatch) r
+  | None => kfail 1 EMissing r
   end.
 
 Definition do_writecas (ctx : kctx) (exp cas : N) (v : option string) (o : wopts) (r : option row) : kres :=
@@ -372,10 +380,14 @@ Definition do_remove (ctx : kctx) (ifcas : option N) (r : option row) : kres :=
 
 Definition do_touch (ctx : kctx) (exp : N) (want_val : bool) (r : option row) : kres :=
   match r with
-  | Some (mkRow (Some v) isj cas _ x tomb rev) =>
-      let r' := mkRow (Some v) isj cas (abs_exp (k_now ctx) exp) x tomb (rev + 1) in
-      mkRes (Some r') (if want_val then RVal v cas else RCas cas) [] 1 (Some (k_cas ctx))
-  | _ => kfail 1 EMissing r
+  | Some r0 =>
+      match r_value r0 with
+      | Some v =>
+          let r' := mkRow (Some v) (r_isJSON r0) (r_cas r0) (abs_exp (k_now ctx) exp) (r_xattrs r0) (r_tomb r0) (r_rev r0 + 1) in
+          mkRes (Some r') (if want_val then RVal v (r_cas r0) else RCas (r_cas r0)) [] 1 (Some (k_cas ctx))
+      | None => kfail 1 EMissing r
+      end
+  | None => kfail 1 EMissing r
   end.
 
 (* ------------------------------------------------------------------------------------------ *)
@@ -537,12 +549,16 @@ Definition apply_xattrs_any_order (xs : list (string * option string)) (m : opti
       then inr EAmbiguous else inr e
   end.
 
+Definition xs_parse_ok (xs : list (string * option string)) : bool :=
+  forallb (fun kv => match snd kv with Some v => is_some (jparse v) | None => true end) xs.
+Definition xs_keys_ok (xs : list (string * option string)) : bool :=
+  forallb (fun kv => valid_xattr_key (fst kv)) xs.
+
 Definition wwx (ctx : kctx) (val : bodyarg) (xs : list (string * option string)) (ifcas : option N)
            (exp : option N) (o : wxo) (ms : list macro) (r : option row) : kres :=
   (* validation before the transaction *)
-  if negb (forallb (fun kv => valid_xattr_key (fst kv)) xs) then kfail 0 EOther r else
-  if negb (forallb (fun kv => match snd kv with Some v => is_some (jparse v) | None => true end) xs)
-  then kfail 0 EOther r else
+  if negb (xs_keys_ok xs) then kfail 0 EOther r else
+  if negb (xs_parse_ok xs) then kfail 0 EOther r else
   let c := k_cas ctx in
   let nonzero_cas := match ifcas with Some x => negb (x =? 0) | None => false end in
   let is_set := match val with BSet _ => true | _ => false end in
@@ -695,9 +711,11 @@ Definition do_subdocwrite (ctx : kctx) (path : string) (cas : N) (v : option jso
       (* Get(key, &fullDoc) *)
       let got : (option (list (string * json)) * N) + err :=
         match r with
-        | Some (mkRow (Some body) _ c0 _ _ _ _) =>
-            match jparse_obj body with Some om => inl (om, c0) | None => inr EOther end
-        | Some (mkRow None _ c0 _ _ _ _) => if insert then inr EMissing else inl (None, c0)
+        | Some r0 =>
+            match r_value r0 with
+            | Some body => match jparse_obj body with Some om => inl (om, r_cas r0) | None => inr EOther end
+            | None => if insert then inr EMissing else inl (None, r_cas r0)
+            end
         | None => if insert then inr EMissing else inl (None, 0)
         end in
       match got with
@@ -707,11 +725,8 @@ Definition do_subdocwrite (ctx : kctx) (path : string) (cas : N) (v : option jso
           match subdoc_apply (match om with Some m => m | None => [] end) p v insert with
           | inr e => kfail 0 (perr e) r
           | inl j =>
-              let w := do_writecas ctx 0 cas_out (Some (jprint j)) (mkWopts false false false) r in
-              match kr_resp w with
-              | RCas c => mkRes (kr_row w) (if insert then ROk else RCas c) (kr_events w) (kr_draws w) (kr_commit w)
-              | _ => w
-              end
+              with_resp (if insert then cas_to_ok else fun x => x)
+                        (do_writecas ctx 0 cas_out (Some (jprint j)) (mkWopts false false false) r)
           end
       end
   end.
@@ -779,10 +794,7 @@ Definition kstep (ctx : kctx) (op : kop) (r : option row) : kres :=
   | KSetRaw exp p v => do_set ctx exp p v false r
   | KWriteCas exp cas v raw app ao => do_writecas ctx exp cas v (mkWopts raw app ao) r
   | KRemove cas => do_remove ctx (Some cas) r
-  | KDelete => match do_remove ctx None r with
-               | mkRes r' (RCas _) ev d cm => mkRes r' ROk ev d cm
-               | x => x
-               end
+  | KDelete => with_resp cas_to_ok (do_remove ctx None r)
   | KIncr amt deflt exp => do_incr ctx amt deflt exp r
   | KTouch exp => do_touch ctx exp false r
   | KGetAndTouch exp => do_touch ctx exp true r
@@ -790,10 +802,7 @@ Definition kstep (ctx : kctx) (op : kop) (r : option row) : kres :=
   | KSetWithMeta oc nc exp x body isj => do_withmeta oc nc exp x body isj r
   | KDeleteWithMeta oc nc exp x => do_withmeta oc nc exp x None false r
   | KSetXattrs xs => do_setxattrs ctx xs r
-  | KRemoveXattrs names cas => match do_removexattrs ctx names cas r with
-                               | mkRes r' (RCas _) ev d cm => mkRes r' ROk ev d cm
-                               | x => x
-                               end
+  | KRemoveXattrs names cas => with_resp cas_to_ok (do_removexattrs ctx names cas r)
   | KDeleteSubDocPaths names => do_deletesubdocpaths ctx names r
   | KDeleteWithXattrs names => do_deletewithxattrs ctx names r
   | KWriteWithXattrs exp cas value xs dels p ms => do_writewithxattrs ctx exp cas value xs dels p ms r
